@@ -107,7 +107,7 @@ Example C09_nonvacuous :
   let ops := [OLit [1; 2]%Z 0; OAppend 0 3 0 4; OAppend 1 4 0 0; OAppend 1 5 0 0; OAppend 1 6 0 0;
               OMap 10 1; OAppend 5 7 4 0; OAppend 5 8 0 0; OWindows 2 1] in
   abs (run ops) = [[1; 2]; [1; 2; 3]; [1; 2; 3; 4]; [1; 2; 3; 5]; [1; 2; 3; 6]; [11; 12; 13];
-                   [11; 12; 13; 7]; [11; 12; 13; 8]; [1; 2]; [3; 2]]%Z
+                   [11; 12; 13; 7]; [11; 12; 13; 8]; [1; 2]; [2; 3]]%Z
   /\ 1 < nobjs (run (firstn 2 ops))
   /\ s_cap (o_items (nth 2 (h_objs (run (firstn 3 ops))) dummy_obj)) = 4.
 Proof. vm_compute. repeat split; auto. Qed.
